@@ -366,6 +366,13 @@ impl Sm9SignMasterKey {
     }
 
     pub fn verify_sign(&self, id: &[u8], data: &[u8], h: &U256, s: &Point) -> Sm9Result<()> {
+        // B1: h must lie in [1, N-1]; B2: S must be a point of the curve
+        if h.is_zero() || u256_cmp(h, &crate::SM9_N) >= 0 {
+            return Err(Sm9Error::InvalidDigest);
+        }
+        if !s.is_on_curve() {
+            return Err(Sm9Error::InvalidPoint);
+        }
         let g = sm9_u256_pairing(&self.ppubs, &SM9_POINT_MONT_P1);
         let t = g.pow(h);
         // B5: h1 = H1(ID || hid, N)
